@@ -4,7 +4,7 @@ import multiprocessing
 import os
 import random
 
-from vf import tlc
+from vf import tlc, traces
 from vf.tlc import MachineryError
 
 SIG = {
@@ -78,6 +78,38 @@ def decide_real(fi, data, read_size, allowed):
     except Exception as e:
         names = 'EXC:' + type(e).__name__
     return hist, names
+
+
+def record_signals(fi, data, read_size, allowed):
+    """One Trace_Detect trace: per read, what every inspector reports and what the wrapper decides."""
+    w = fi.InspectWrapper(io.BytesIO(data), allowed_formats=allowed)
+    names = sorted(str(i) for i in w._inspectors)
+    ev = []
+
+    def sample(finished):
+        comp, mat = {}, {}
+        for i in w._inspectors:
+            try:
+                comp[str(i)] = bool(i.complete)
+                mat[str(i)] = bool(i.format_match)
+            except Exception as e:
+                comp[str(i)] = mat[str(i)] = 'EXC:' + type(e).__name__
+        try:
+            f = w.format
+            d = 'None' if f is None else str(f)
+        except fi.ImageFormatError:
+            d = 'ImageFormatError'
+        except Exception as e:
+            d = 'EXC:' + type(e).__name__
+        ev.append({'complete': comp, 'match': mat, 'finished': finished, 'decision': d})
+    while True:
+        chunk = w.read(read_size)
+        sample(False)
+        if not chunk:
+            break
+    w.close()
+    sample(True)
+    return {'insp': names, 'ev': ev}
 
 
 def _job(args):
@@ -185,6 +217,28 @@ def run(ctx):
     ctx.cov['distinct_nontrivial'] += len(items)
     ctx.stage('decision-replay', contents=len(items), runs=runs, classes=classes)
     ctx.sample({'content': items[0][1]})
+    # code -> spec: recorded (signals, decision) sequences validated by Trace_Detect
+    batch = []
+    picks = items[:]
+    rnd.shuffle(picks)
+    for idx, rec in picks[:(1500 if quick else 12000)]:
+        c = rec['c']
+        data = build(c, random.Random(ctx.seed * 65537 + idx))
+        sz = rnd.choice([512, 4096, 65536]) if len(data) > 3000 else rnd.choice([17, 64, 512])
+        batch.append(record_signals(fi, data, sz, sorted(c['allowed']) or None))
+    for b in range(0, len(batch), 4000):
+        part = batch[b:b + 4000]
+        rejected, inv, r = traces.validate(ctx, 'Trace_Detect', part, 'd%d' % b)
+        ctx.tlc(r, 'Trace_Detect batch', counts_as_states=False)
+        ctx.cov['traces_validated_against_impl'] += len(part) - len(rejected)
+        for i in sorted(rejected)[:5]:
+            at, inv1 = traces.diagnose(ctx, 'Trace_Detect', part[i])
+            ev = part[i]['ev']
+            ctx.violation({'kind': 'decision-trace', 'invariant': inv1, 'decision': ev[min(at, len(ev)) - 1]['decision']},
+                          {'trace_head': ev[:3], 'rejected_at': at, 'event': ev[min(at, len(ev)) - 1], 'inspectors': part[i]['insp']},
+                          'recorded detection run rejected at sample %d: wrapper says %s for signals %s %s' % (
+                              at, ev[min(at, len(ev)) - 1]['decision'], ev[min(at, len(ev)) - 1]['match'], inv1 or ''))
+    ctx.stage('decision-traces', traces=len(batch), accepted=ctx.cov['traces_validated_against_impl'])
     # arbitrary files: totality + no revision only
     from checks import real_images as ri
     n_arb = 300 if quick else 5000
